@@ -37,6 +37,7 @@ class State(object):
         self.DSZ = z3.Const('DSZ0', IntArr)
         self.nxt = z3.Int('next0')
         self.pc = []
+        self.pk = []            # kind of each pc entry: 'f' fork literal (branch decision) | 'a' assumed fact
         self.cur_exc = None     # exception being handled (for bare `raise`)
         self.trace = []         # human-readable branch decisions
         self.notes = {}         # misc per-path ghost (e.g. known keys of literal dicts)
@@ -47,15 +48,17 @@ class State(object):
         n.heap = dict(self.heap)
         n.L, n.DK, n.DV, n.DSZ, n.nxt = self.L, self.DK, self.DV, self.DSZ, self.nxt
         n.pc = list(self.pc)
+        n.pk = list(self.pk)
         n.cur_exc = self.cur_exc
         n.trace = list(self.trace)
         n.notes = dict(self.notes)
         return n
 
-    def assume(self, c):
+    def assume(self, c, kind='a'):
         c = z3.simplify(c)
         if not z3.is_true(c) and not any(c.eq(x) for x in self.pc[-40:]):
             self.pc.append(c)
+            self.pk.append(kind)
         return self
 
     def field(self, f):
@@ -372,3 +375,108 @@ def val_of(x):
         if s == StrS:
             return VStr(x)
     raise Unsupported('no Val for %r' % (x,))
+
+
+def merge_states(items):
+    """state merging at control-flow joins: [(state, value or None)] -> merged list (length 1 when possible).
+    Guards are the conjunctions of the fork literals taken since the common prefix of the path conditions."""
+    if len(items) <= 1:
+        return items
+    states = [s for s, _ in items]
+    vals = [v for _, v in items]
+    n = min(len(s.pc) for s in states)
+    k = 0
+    while k < n and all(states[0].pc[k] is s.pc[k] or states[0].pc[k].eq(s.pc[k]) for s in states[1:]):
+        k += 1
+    guards, facts = [], []
+    for s in states:
+        fl = [t for t, kd in zip(s.pc[k:], s.pk[k:]) if kd == 'f']
+        al = [t for t, kd in zip(s.pc[k:], s.pk[k:]) if kd == 'a']
+        if not fl:
+            return items            # nothing distinguishes this state: keep the paths apart
+        guards.append(And(*fl))
+        facts.append(al)
+    if any(s.cur_exc is not states[0].cur_exc for s in states):
+        return items
+
+    def pick(terms):
+        out = terms[-1]
+        for g, t in zip(reversed(guards[:-1]), reversed(terms[:-1])):
+            out = z3.If(g, t, out)
+        return out
+
+    def merge_sv(svs):
+        if any(not isinstance(x, SV) for x in svs):
+            if all(x is svs[0] for x in svs):
+                return svs[0]
+            return None
+        if all(x.term.eq(svs[0].term) for x in svs[1:]) and all(x.ty == svs[0].ty for x in svs[1:]):
+            return svs[0]
+        ty = None
+        for x in svs:
+            ty = Ty.join(ty, x.ty)
+        if isinstance(ty, Ty.TAny) and not all(isinstance(x.ty, Ty.TAny) for x in svs):
+            nonany = [x.ty for x in svs if not isinstance(x.ty, Ty.TAny)]
+            if not all(_mergeable(t) for t in nonany):
+                return None
+        same_py = all(x.has_py for x in svs) and all(type(x.py) is type(svs[0].py) and x.py == svs[0].py for x in svs[1:])
+        return SV(pick([x.term for x in svs]), ty, svs[0].py if same_py else None, same_py)
+
+    m = states[0].copy()
+    names = set(states[0].env)
+    for s in states[1:]:
+        if set(s.env) != names:
+            return items
+    env = {}
+    for nm in names:
+        r = merge_sv([s.env[nm] for s in states])
+        if r is None:
+            return items
+        env[nm] = r
+    mv = None
+    if any(v is not None for v in vals):
+        mv = merge_sv(vals)
+        if mv is None:
+            return items
+    m.env = env
+    m.pc = list(states[0].pc[:k])
+    m.pk = list(states[0].pk[:k])
+    m.assume(Or(*guards))
+    for g, al in zip(guards, facts):
+        if al:
+            m.assume(Implies(g, And(*al)))
+    fields = set()
+    for s in states:
+        fields |= set(s.heap)
+    for f in fields:
+        arrs = [s.field(f) for s in states]
+        m.heap[f] = arrs[0] if all(a.eq(arrs[0]) for a in arrs[1:]) else pick(arrs)
+    for attr in ('L', 'DK', 'DV', 'DSZ', 'nxt'):
+        ts = [getattr(s, attr) for s in states]
+        setattr(m, attr, ts[0] if all(t.eq(ts[0]) for t in ts[1:]) else pick(ts))
+    # per-path ghost notes
+    notes = {}
+    base_calls = None
+    calls = []
+    common = None
+    lists = [s.notes.get('calls', ()) for s in states]
+    cp = 0
+    while all(len(l) > cp for l in lists) and all(l[cp] is lists[0][cp] for l in lists[1:]):
+        cp += 1
+    merged_calls = tuple(lists[0][:cp])
+    for g, l in zip(guards, lists):
+        for rec in l[cp:]:
+            merged_calls += (rec + (('guard', g),),)
+    for s in states:
+        for key, v in s.notes.items():
+            if key != 'calls':
+                notes[key] = v
+    notes['calls'] = merged_calls
+    m.notes = notes
+    m.trace = list(states[0].trace[:0]) + ['merge(%d)' % len(states)]
+    return [(m, mv)]
+
+
+def _mergeable(t):
+    return isinstance(t, (Ty.TAny, Ty.TNone, Ty.TBool, Ty.TInt, Ty.TStr, Ty.TBytes)) or \
+        (isinstance(t, Ty.TOpt) and _mergeable(t.t))
